@@ -211,17 +211,18 @@ PROPS["C16"]["technique"] = ("contract-based deductive verification (pyvc VCs fr
 PROPS["C16"]["explanation"] = ("Proved for all inputs: gap_degree_node == set-based gap degree, has_gaps, gap_type classification, "
                                "terminal_blocks partitions T(node) into its maximal runs in order with |blocks| = gap degree + 1, "
                                "gap_degree is the maximum over the nodes in preorder, the counting tasks add exactly one per sentence / "
-                               "token tag / gap degree class (loop invariants and recursive count specs, no bound). The contract of "
-                               "trees.preorder is assumed at call sites; trees.terminals and trees.children are verified against their "
-                               "characterisations under C19. Printed reports, the three-way agreement and disco_order are bounded only.")
+                               "token tag / gap degree class (loop invariants and recursive count specs, no bound). The contracts of "
+                               "trees.preorder, trees.terminals and trees.children used at call sites are verified under C19. Printed reports, the three-way agreement and disco_order are bounded only.")
 PROPS["C19"]["technique"] = ("contract-based deductive verification (pyvc, read-only heap with ghost depth/anc/pos/rank) of terminals, children, "
-                             "right_sibling, left_sibling, dominance, lca + lemmas (siblings inverse, lca lowest); bounded stand-in for "
-                             "preorder/postorder/levels/numbering and for the ghost theory")
+                             "preorder, postorder, right_sibling, left_sibling, dominance, lca + lemmas (siblings inverse, lca lowest); bounded "
+                             "stand-in for levels/numbering and for the ghost theory")
 PROPS["C19"]["explanation"] = ("terminals (only tokens below the node, strictly increasing numbers, exactly as many as there are; recursion with a "
                                "decreasing rank; sorted() modelled as an ordered permutation) and children (a permutation of the stored child "
                                "list in strict order of least token) are proved against these characterisations; right_sibling/left_sibling "
                                "(neighbours in the ordered child list, mutually inverse), dominance (parent chain to the root, with termination) "
                                "and lca (none iff one dominates the other; otherwise the lowest common dominator) are proved for every "
-                               "well-formed tree of any size over the contracts of children/terminals. preorder, postorder, levels and the "
-                               "export numbering are bounded only; the ghost theory of well-formed trees is validated on enumerated trees.")
-PROPS["C19"]["level_text"] = "proof for terminals/children/siblings/dominance/lca, bounded stand-in for the rest; 'other'"
+                               "well-formed tree of any size over the contracts of children/terminals. preorder and postorder (recursive generators, "
+                               "nested loop invariants) are proved to yield the recursively defined lists P / Q: every node below the argument "
+                               "exactly once, the argument first / last, ancestors before / after their descendants. levels and the export "
+                               "numbering are bounded only; the ghost theory of well-formed trees is validated on enumerated trees.")
+PROPS["C19"]["level_text"] = "proof for terminals/children/preorder/postorder/siblings/dominance/lca, bounded stand-in for levels and numbering; 'other'"
